@@ -674,15 +674,10 @@ ElemNumber::getPreviousNode(
 
             if(0 == next)
             {
+                // The document node is an ancestor like any
+                // other: the patterns may match it.  Its parent
+                // is 0, which ends the walk.
                 next = pos->getParentNode();
-
-                if(0 != next &&
-                   next->getNodeType() == XalanNode::DOCUMENT_NODE)
-                {
-                    pos = 0; // return 0 from function.
-
-                    break; // from while loop
-                }
             }
             else
             {
